@@ -22,6 +22,9 @@ fit; a class without own __init__ inherits one whose super() call hard-codes no 
 has parameters) and "the AST resolver does not hit the AttributeError" (`resolveOut P c ≠ .crash`).
 -/
 import Jap.Lemmas.ResolverClean
+import Jap.Lemmas.ResolverMod
+import Jap.Lemmas.ResolverTie
+import Jap.Gen.ResolverSites
 
 namespace Jap.Props.C13
 open Jap.Resolver
@@ -156,6 +159,79 @@ theorem C13_own_parameters_win (P : Prog) (c : CId) (wh : Where) (body : Callabl
   subst hReq
   exact ⟨List.mem_append_left _ hp, fun q hq hname => own_unique hnd hext hp hq hname⟩
 
+
+/-! ### programs spread over modules (`Jap/Core/ResolverMod.lean`): name resolution per defining module -/
+
+/-- THE property for programs spread over any number of modules: every body is linked in the global table of
+    the module that DEFINES it (the resolver: `inspect.getmodule(self.component)`; the interpreter: the function's
+    `__globals__`), identifiers may denote different callables in different modules, constants may have different
+    truth values per module — offered ⇔ accepted. -/
+theorem C13_exact_modules (MP : MProg) (c : CId) (hW : WfProg (link MP) = true) (hc : c.valid MP.src = true)
+    (hnc : resolveOutM MP c ≠ .crash) (n : String) :
+    n ∈ names (resolveM MP c) ↔ acceptsM MP c n = true :=
+  C13_exact (link MP) c hW (by rw [link_valid]; exact hc) hnc n
+
+/-- … with hypotheses on the program text only (`noPopClash` of the linked program): the resolver does not raise -/
+theorem C13_exact_modules_syntactic (MP : MProg) (c : CId) (hW : WfProg (link MP) = true) (hC : noPopClash (link MP) = true)
+    (hc : c.valid MP.src = true) (n : String) :
+    n ∈ names (resolveM MP c) ↔ acceptsM MP c n = true :=
+  C13_exact_modules MP c hW hc (C13_no_crash (link MP) c hW hC) n
+
+/-- … and every offered parameter keeps name, type, default and kind of a definition of the linked program. -/
+theorem C13_keeps_sig_modules (MP : MProg) (c : CId) (p : Param) (hp : p ∈ resolveM MP c) :
+    p.dflt.isCond = true ∨ ∃ q ∈ (link MP).defs, sameSig p q :=
+  C13_keeps_sig (link MP) c p hp
+
+/-- The globals of a module matter only for program text that lives in it: two source programs with the same text,
+    module assignment and classmethod definers whose tables agree on every module that holds a body
+    (`usesModule`) offer and accept the same.  In particular what a module that merely subclasses / imports binds
+    under the identifiers used by the library's bodies is irrelevant. -/
+theorem C13_foreign_globals_irrelevant (MP MP' : MProg) (hs : MP'.src = MP.src) (hm : MP'.modOf = MP.modOf)
+    (hcd : MP'.cmDef = MP.cmDef) (h : ∀ m, MP.usesModule m = true → MP'.moduleAt m = MP.moduleAt m) (c : CId) :
+    resolveOutM MP' c = resolveOutM MP c ∧ ∀ n, acceptsM MP' c n = acceptsM MP c n := by
+  have hl := link_congr MP MP' hs hm hcd h
+  unfold resolveOutM acceptsM
+  rw [hl]
+  exact ⟨rfl, fun _ => rfl⟩
+
+
+/-! ### tie: the statements of `_parameter_resolvers.py` that the model transcribes (regenerated into `Gen/ResolverSites.lean`) -/
+
+theorem tie_getSignatureParameters : Jap.Gen.ResolverSites.getSignatureParameters = Tie.getSignatureParameters := rfl
+theorem tie_getParameterOrigins : Jap.Gen.ResolverSites.getParameterOrigins = Tie.getParameterOrigins := rfl
+theorem tie_removeGivenParameters : Jap.Gen.ResolverSites.removeGivenParameters = Tie.removeGivenParameters := rfl
+theorem tie_getMroParameters : Jap.Gen.ResolverSites.getMroParameters = Tie.getMroParameters := rfl
+theorem tie_mroContext : Jap.Gen.ResolverSites.mroContext = Tie.mroContext := rfl
+theorem tie_astIsSuperCall : Jap.Gen.ResolverSites.astIsSuperCall = Tie.astIsSuperCall := rfl
+theorem tie_astIsSupportedSuperCall : Jap.Gen.ResolverSites.astIsSupportedSuperCall = Tie.astIsSupportedSuperCall := rfl
+theorem tie_astIsKwargsPopOrGet : Jap.Gen.ResolverSites.astIsKwargsPopOrGet = Tie.astIsKwargsPopOrGet := rfl
+theorem tie_astGetCallKwargWithValue : Jap.Gen.ResolverSites.astGetCallKwargWithValue = Tie.astGetCallKwargWithValue := rfl
+theorem tie_astGetCallPositionalIndexes : Jap.Gen.ResolverSites.astGetCallPositionalIndexes = Tie.astGetCallPositionalIndexes := rfl
+theorem tie_astGetCallKeywordNames : Jap.Gen.ResolverSites.astGetCallKeywordNames = Tie.astGetCallKeywordNames := rfl
+theorem tie_groupParameters : Jap.Gen.ResolverSites.groupParameters = Tie.groupParameters := rfl
+theorem tie_replaceArgsAndKwargs : Jap.Gen.ResolverSites.replaceArgsAndKwargs = Tie.replaceArgsAndKwargs := rfl
+theorem tie_splitArgsAndKwargs : Jap.Gen.ResolverSites.splitArgsAndKwargs = Tie.splitArgsAndKwargs := rfl
+theorem tie_getComponentAndParent : Jap.Gen.ResolverSites.getComponentAndParent = Tie.getComponentAndParent := rfl
+theorem tie_isClassmethod : Jap.Gen.ResolverSites.isClassmethod = Tie.isClassmethod := rfl
+theorem tie_getSignatureParametersAndIndexes : Jap.Gen.ResolverSites.getSignatureParametersAndIndexes = Tie.getSignatureParametersAndIndexes := rfl
+theorem tie_pvInit : Jap.Gen.ResolverSites.pvInit = Tie.pvInit := rfl
+theorem tie_pvVisitAssign : Jap.Gen.ResolverSites.pvVisitAssign = Tie.pvVisitAssign := rfl
+theorem tie_pvVisitCall : Jap.Gen.ResolverSites.pvVisitCall = Tie.pvVisitCall := rfl
+theorem tie_pvVisitIf : Jap.Gen.ResolverSites.pvVisitIf = Tie.pvVisitIf := rfl
+theorem tie_pvAddValue : Jap.Gen.ResolverSites.pvAddValue = Tie.pvAddValue := rfl
+theorem tie_pvFindValuesUsage : Jap.Gen.ResolverSites.pvFindValuesUsage = Tie.pvFindValuesUsage := rfl
+theorem tie_pvGetComponentGlobals : Jap.Gen.ResolverSites.pvGetComponentGlobals = Tie.pvGetComponentGlobals := rfl
+theorem tie_pvGetNodeComponent : Jap.Gen.ResolverSites.pvGetNodeComponent = Tie.pvGetNodeComponent := rfl
+theorem tie_pvMatchCallThatUsesAttr : Jap.Gen.ResolverSites.pvMatchCallThatUsesAttr = Tie.pvMatchCallThatUsesAttr := rfl
+theorem tie_pvGetKwargsPopOrGetParameter : Jap.Gen.ResolverSites.pvGetKwargsPopOrGetParameter = Tie.pvGetKwargsPopOrGetParameter := rfl
+theorem tie_pvGetParametersArgsAndKwargs : Jap.Gen.ResolverSites.pvGetParametersArgsAndKwargs = Tie.pvGetParametersArgsAndKwargs := rfl
+theorem tie_pvGetParametersAttrUseInMembers : Jap.Gen.ResolverSites.pvGetParametersAttrUseInMembers = Tie.pvGetParametersAttrUseInMembers := rfl
+theorem tie_pvGetParametersCallAttr : Jap.Gen.ResolverSites.pvGetParametersCallAttr = Tie.pvGetParametersCallAttr := rfl
+theorem tie_pvGetParameters : Jap.Gen.ResolverSites.pvGetParameters = Tie.pvGetParameters := rfl
+
+/-- the pinned tables are not empty (a site that is no longer found is a broken tie, not an empty agreement) -/
+example : Tie.pvGetNodeComponent.length = 6 ∧ Tie.removeGivenParameters.length = 8 ∧ "module = inspect.getmodule(self.component)" ∈ Tie.pvGetNodeComponent := by decide
+
 /-! ### concrete programs: non-vacuity and the counterexamples to the full statement -/
 
 def dv (s : String) : DVal := ⟨s, s, s⟩
@@ -236,6 +312,45 @@ example : names (resolve nestedProg (.entry 1)) = ["size", "color", "title"] := 
 example : names (resolve nestedProg (.entry 2)) = ["color", "t2", "level"] := by decide
 example : accepts nestedProg (.entry 1) "title" = true ∧ accepts nestedProg (.entry 1) "label" = false ∧
     accepts nestedProg (.entry 2) "level" = true ∧ accepts nestedProg (.entry 2) "size" = false := by decide
+
+
+/-- two modules, the same identifier `build` (symbol 0) bound to different callables:
+      lib  (module 0, constants flipped): def build(a: int = 0, b: str = 'x', c: float = 1.0)
+                                          class K1: __init__(self, e=1, **kw): kw.pop('z', 1)
+                                                                               if not FLAG: build(1, c=…, **kw)   (live in lib)
+      user (module 1): def build(y: int = 5, a: str = 's', w: bool = True)     (another callable, same identifier)
+                       class K3(K1): pass                                      (symbol 1 = `K3`)
+                       def f4(t='t', **kw): K3(**kw) -/
+def libUser (userGlobals : List (Nat × Nat)) : MProg :=
+  { src := ⟨[
+      .fn ⟨[pk "a" "int" "0", pk "b" "str" "x", pk "c" "float" "1.0"], false, []⟩,
+      klass (some ⟨[pk "e" "int" "1"], true, [al (.pop "z" (dv "1")), ⟨.const false, .call (.entry 0) 1 ["c"]⟩]⟩) [],
+      .fn ⟨[pk "y" "int" "5", pk "a" "str" "s", pk "w" "bool" "True"], false, []⟩,
+      klass none [1],
+      .fn ⟨[pk "t" "str" "t"], true, [al (.call (.entry 1) 0 [])]⟩]⟩,
+    modOf := [0, 0, 1, 1, 1],
+    cmDef := [[], [], [], [], []],
+    mods := [⟨[(0, 0)], true⟩, ⟨userGlobals, false⟩] }
+
+example : WfProg (link (libUser [(0, 2), (1, 3)])) = true ∧ noPopClash (link (libUser [(0, 2), (1, 3)])) = true ∧
+    (CId.entry 3).valid (libUser [(0, 2), (1, 3)]).src = true := by decide
+/-- the inherited `__init__` forwards to the LIBRARY's `build`, whatever `build` is in the user module -/
+example : names (resolveM (libUser [(0, 2), (1, 3)]) (.entry 3)) = ["e", "z", "b"] := by decide
+example : names (resolveM (libUser [(0, 2), (1, 3)]) (.entry 4)) = ["t", "e", "z", "b"] := by decide
+example : acceptsM (libUser [(0, 2), (1, 3)]) (.entry 3) "b" = true ∧ acceptsM (libUser [(0, 2), (1, 3)]) (.entry 3) "w" = false ∧
+    acceptsM (libUser [(0, 2), (1, 3)]) (.entry 3) "c" = false := by decide
+/-- the user module holds text (`f4`): its table matters for `K3` … -/
+example : (libUser [(0, 2), (1, 3)]).usesModule 1 = true ∧ names (resolveM (libUser [(0, 2)]) (.entry 4)) = ["t"] := by decide
+/-- … a module WITHOUT text is irrelevant (`C13_foreign_globals_irrelevant` is not vacuous): a third module that only subclasses -/
+def threeMods (g : List (Nat × Nat)) : MProg :=
+  { libUser [(0, 2), (1, 3)] with
+    src := ⟨(libUser []).src.entries ++ [klass none [1]]⟩, modOf := [0, 0, 1, 1, 1, 2], cmDef := [[], [], [], [], [], []],
+    mods := [⟨[(0, 0)], true⟩, ⟨[(0, 2), (1, 3)], false⟩, ⟨g, false⟩] }
+example : (threeMods []).usesModule 2 = false ∧ (threeMods []).usesModule 0 = true := by decide
+example : names (resolveM (threeMods [(0, 2)]) (.entry 5)) = ["e", "z", "b"] ∧
+    resolveOutM (threeMods [(0, 2)]) (.entry 5) = resolveOutM (threeMods []) (.entry 5) := by decide
+/-- with the constants of the library NOT flipped the forwarding call is dead code there -/
+example : names (resolveM { libUser [(0, 2), (1, 3)] with mods := [⟨[(0, 0)], false⟩, ⟨[(0, 2), (1, 3)], false⟩] } (.entry 3)) = ["e", "z"] := by decide
 
 /-- #14b: `extra = kwargs.get('extra', 5); super().__init__(**kwargs)` -/
 def progGet : Prog := ⟨[base,
